@@ -189,7 +189,8 @@ def times_from_fields(env, time_coverage=None):
     coarser field than the coarsest end field. Returns (t0, t1) or raises
     ValueError for impossible dates. t1 is None when the rule of the statement
     does not determine it (roll-over of an end whose coarsest field is coarser
-    than hour)."""
+    than hour). An end whose coarsest field is a fraction of a second moves on
+    by one second."""
     s = {k: v for k, v in env.items() if k in WIDTH and
          not k.startswith("end_")}
     e = {k[4:]: v for k, v in env.items() if k in WIDTH and
@@ -220,7 +221,7 @@ def times_from_fields(env, time_coverage=None):
     if t1 < t0:
         coarsest = min(UNIT_ORDER.index(k) for k in raw)
         unit = UNIT_ORDER[coarsest]
-        if unit in ("hour", "minute", "second"):
+        if unit in ("hour", "minute", "second", "microsecond"):
             t1 = t1 + UNIT_STEP[UNIT_ORDER[coarsest - 1]]
         else:
             return t0, None
